@@ -2,11 +2,12 @@
 """seed_save.py <Cnn> <slug> <change> <needs>: store a round-2 seeded change from /tmp/seed2_<Cnn> and evaluate it"""
 import json, os, shutil, subprocess, sys
 pid, slug, change, needs = sys.argv[1:5]
-src = f"/tmp/seed2_{pid}"
-dst = f"/verif/seeded/{pid}-r2-{slug}"
+rnd = sys.argv[5] if len(sys.argv) > 5 else "2"
+src = f"/tmp/seed{rnd}_{pid}"
+dst = f"/verif/seeded/{pid}-r{rnd}-{slug}"
 os.makedirs(dst, exist_ok=True)
 shutil.copy(f"{src}/patch.diff", dst)
 shutil.copy(f"{src}/demo.py", dst)
-json.dump({"property": pid, "source": "independent sub-agent, round 2 (property text + scratch worktree only; asked for a different mechanism than round 1)",
+json.dump({"property": pid, "source": "independent sub-agent, later round (property text + scratch worktree only; asked for a different mechanism than the earlier rounds)",
            "change": change, "needs": needs, "confirmed": "pending", "detected_by": "pending"}, open(f"{dst}/meta.json", "w"), indent=1)
 subprocess.run(["python3", "/verif/tools/seed_all.py", os.path.basename(dst)])
